@@ -514,6 +514,57 @@ Proof.
   - apply s_buy_and_hold_prefix. apply IH; assumption.
 Qed.
 
+Theorem sem_prefix_kw : forall I A (e : expr I A) (env1 env2 : list (list I)),
+  Forall2 prefix env1 env2 ->
+  ekw e (map (@length _) env1) ->
+  prefix (sem e env1) (sem e env2).
+Proof.
+  intros I A0 e env1 env2 Henv.
+  induction e as
+    [ k
+    | X Y f e IH
+    | X Y S s0 f e IH
+    | X k e IH
+    | X k fill e IH
+    | X k e IH
+    | X k e IH
+    | X k e IH
+    | X Y Z f a IHa b IHb
+    | X Y Z S s0 f a IHa b IHb
+    | X Y Z W f a IHa b IHb c IHc
+    | X Y Z W S s0 f a IHa b IHb c IHc
+    | T O N from e IH
+    | T seed IHseed p step e IH
+    | T N cl IHcl scs IHscs
+    | T N p e IH
+    | X Y buy hold e IH ]; cbn [sem ekw]; intros Hw1.
+  - apply Forall2_prefix_nth. exact Henv.
+  - apply prefix_map. apply IH; assumption.
+  - apply s_mapst_prefix. apply IH; assumption.
+  - apply s_skip_prefix. apply IH; assumption.
+  - apply s_shift_prefix. apply IH; assumption.
+  - apply s_head_prefix. apply IH; assumption.
+  - apply s_first_prefix. apply IH; assumption.
+  - apply s_buffered_prefix. apply IH; assumption.
+  - destruct Hw1 as [Ha1 Hb1].
+    apply s_op2_prefix; [apply IHa | apply IHb]; assumption.
+  - destruct Hw1 as [Ha1 Hb1].
+    apply s_op2st_prefix; [apply IHa | apply IHb]; assumption.
+  - destruct Hw1 as [Ha1 [Hb1 Hc1]].
+    apply s_op3_prefix; [apply IHa | apply IHb | apply IHc]; assumption.
+  - destruct Hw1 as [Ha1 [Hb1 Hc1]].
+    apply s_op3st_prefix; [apply IHa | apply IHb | apply IHc]; assumption.
+  - apply s_count_prefix. apply IH; assumption.
+  - destruct Hw1 as [Hs1 He1].
+    apply s_seeded_scan_prefix; [apply IHseed | apply IH]; assumption.
+  - destruct Hw1 as [Hc1 [Hs1 Hlen1]].
+    apply s_kama_tail_prefix; [apply IHcl; assumption | apply IHscs; assumption |].
+    rewrite !sem_length. exact Hlen1.
+  - apply s_moving_std_prefix. apply IH; assumption.
+  - apply s_buy_and_hold_prefix. apply IH; assumption.
+Qed.
+
+
 Lemma map_length_firstn {A} (m : nat) (env : list (list A)) :
   map (@length A) (map (firstn m) env) = map (fun l => Nat.min m (length l)) env.
 Proof.
@@ -544,5 +595,6 @@ Qed.
 
 Print Assumptions sem_length.
 Print Assumptions sem_prefix.
+Print Assumptions sem_prefix_kw.
 Print Assumptions sem_causal.
 Print Assumptions sem_suffix_irrelevant.
